@@ -642,7 +642,7 @@ class Function(NameAliasMixin, TokenList):
         result = []
         for token in parenthesis.tokens:
             if isinstance(token, IdentifierList):
-                return token.get_identifiers()
+                return list(token.get_identifiers())
             elif imt(token, i=(Function, Identifier, TypedLiteral, Operation,
                                Comparison, Case, Parenthesis),
                      m=(T.Keyword, 'NULL'), t=[T.Literal, T.Wildcard]):
